@@ -151,4 +151,22 @@ let () =
       verdict ~agree:(conc_agrees [] o) ~spec:(conc_spec_ok o) ~kf:"-"
         ~detail:"the race detector reported a data race while the clients ran concurrently (report in the harness log)"
     | [L (A "conc" :: transport :: clients); obs] -> conc transport clients obs
+    | [L (A "cdav" :: A proto :: clients); L (A "dobs" :: hang :: cls)] ->
+      (* support, no model: caldav/carddav handlers; the verdict is "concurrently = alone" *)
+      bump ("cdav_" ^ proto);
+      bump ("cdav_clients_" ^ string_of_int (List.length clients));
+      let cls = List.map (function
+          | L [A "cl"; L c; L a] -> (List.map str c, List.map str a)
+          | _ -> raise (Parse_error "dav client obs")) cls in
+      List.iter (fun (c, _) -> List.iter (fun x ->
+          let s = string_of_chars x in
+          bump ("cdav_answer_" ^ (if String.length s > 0 && s.[0] = 'E' then s
+                                  else if String.length s > 0 && s.[0] = '[' then "list"
+                                  else if String.length s >= 3 && String.sub s 0 3 = "got" then "got"
+                                  else if String.length s >= 2 && String.sub s 0 2 = "ok" then "put_ok"
+                                  else if s = "deleted" then "deleted"
+                                  else if String.length s >= 5 && String.sub s 0 5 = "PANIC" then "PANIC" else "find"))) c) cls;
+      if List.length clients >= 2 then note_nontrivial (show (L (A "cdav" :: A proto :: clients)));
+      let ok = dav_spec_ok (bool_ hang) cls && List.length cls = List.length clients in
+      verdict ~agree:ok ~spec:ok ~kf:"-" ~detail:"no model for this part: concurrent answers differ from the answers alone (or hang)"
     | _ -> raise (Parse_error "line"))
